@@ -2649,6 +2649,20 @@ rfbProcessClientNormalMessage(rfbClientPtr cl)
 	  cl->enableCursorPosUpdates = FALSE;
 	}
 
+        /* A copy scheduled while the client accepted CopyRect must not be sent
+         * as CopyRect after the client withdrew that encoding: what is still
+         * pending becomes an ordinary modification. */
+        if (!cl->useCopyRect) {
+            LOCK(cl->updateMutex);
+            if (!sraRgnEmpty(cl->copyRegion)) {
+                sraRgnOr(cl->modifiedRegion, cl->copyRegion);
+                sraRgnMakeEmpty(cl->copyRegion);
+                cl->copyDX = 0;
+                cl->copyDY = 0;
+            }
+            UNLOCK(cl->updateMutex);
+        }
+
 	/* the client no longer draws the cursor itself: it has to be painted for it */
 	if (hadCursorShapeUpdates && !cl->enableCursorShapeUpdates)
 	  rfbRedrawAfterHideCursor(cl,NULL);
